@@ -1162,6 +1162,9 @@ impl CanonicalizeContext {
 						}
 					}
 					let mathml = if element_name == "mmultiscripts" {clean_mmultiscripts(mathml).unwrap()} else {mathml};
+					if name(&mathml) != element_name {
+						return Some(mathml);		// all scripts were <none/>: the mmultiscripts was replaced by its (already cleaned) base
+					}
 					if !is_chemistry_off(mathml) {
 						let likely_chemistry = likely_adorned_chem_formula(mathml);
 						// debug!("likely_chemistry={}, {}", likely_chemistry, mml_to_string(&mathml));
